@@ -87,6 +87,39 @@ def handle (j : Json) : R Json := do
                      ("br", Json.str (if addrEq a b then "eq" else "ne"))])
       | .error e, _ => pure (jErr e)
       | _, .error e => pure (jErr e)
+  | "eqr" =>   -- __eq__ / _tuple() of addresses that may carry a route (default settings)
+      let (ra, _) ← build (← fld j "a")
+      let (rb, _) ← build (← fld j "b")
+      let route (k : String) : R (Option (Except Err Addr)) :=
+        match fldOpt j k with
+        | none => pure none
+        | some r => do let (x, _) ← build r; pure (some x)
+      let ar ← route "ar"
+      let br ← route "br"
+      let opt : Option (Except Err Addr) → Except Err (Option Addr)
+        | none => .ok none
+        | some (.ok x) => .ok (some x)
+        | some (.error e) => .error e
+      match ra, rb, opt ar, opt br with
+      | .ok a, .ok b, .ok x, .ok y =>
+          let p : RAddr := ⟨a, x⟩
+          let q : RAddr := ⟨b, y⟩
+          pure (jOk [("eq", Json.bool (addrEqR p q)), ("hk", Json.bool (hashKeyR p == hashKeyR q)),
+                     ("br", Json.str (if addrEqR p q then "eqr" else "ner"))])
+      | .error e, _, _, _ => pure (jErr e)
+      | _, .error e, _, _ => pure (jErr e)
+      | _, _, .error e, _ => pure (jErr e)
+      | _, _, _, .error e => pure (jErr e)
+  | "mixed" =>   -- an address and an int as keys of one table
+      let (ra, _) ← build (← fld j "a")
+      let n ← fldInt j "n"
+      match ra with
+      | .error e => pure (jErr e)
+      | .ok a =>
+          let eq : Json := match addrEqInt a n with
+            | .ok b => Json.bool b
+            | .error e => Json.mkObj [("err", e.name)]
+          pure (jOk [("eq", eq), ("same", Json.bool (keyOfAddr a == keyOfInt n))])
   | "pack" =>
       match packIp (← fldStr j "h").toList (← fldNat j "p") with
       | .ok b => pure (jOk [("hex", jHex b)])
